@@ -288,6 +288,8 @@ def _main(pid, mod, seed, tier, args, tmp, t0):
         "violations": len(reported),
     }
     ev["coverage"].update(extra)
+    if extra.get("enumeration_cut_short_by_budget"):
+        ev["coverage"]["exhaustive"] = False
     edir = (Path("/tmp/verif-mut") / "evidence") if scratch else (VERIF / "evidence")
     edir.mkdir(parents=True, exist_ok=True)
     (edir / ("%s.json" % pid)).write_text(json.dumps(ev, indent=1, default=str) + "\n")
